@@ -801,6 +801,12 @@ fn main() {
         sp.done(true, "4 kinds x 2 modes x all ordered pairs and triples of 4-10 (issuer, instant / callback) settings on one decoded value");
     }
 
+    //--- (4e) BER respellings of the CMS wrapper (relaxed mode) ---------------------------------------------------------
+    ber_respellings(&ctx, &fx, &ees);
+
+    //--- (4f) the scale dimension: number of blocks / prefixes / providers ------------------------------------------------
+    scale_spaces(&ctx, &fx, thorough);
+
     //--- (4d) siblings of the checked entry points: wall-clock variants, builder helpers, digest / key helpers -------
     api_siblings(&ctx, &fx, &perms);
 
@@ -1404,4 +1410,266 @@ fn api_siblings(ctx: &Ctx, fx: &Fx, perms: &[[usize; 3]]) {
     }
     sp.sample_str(|| "pool key 0: rsa_from_components(n, e), rsa_from_bits_bytes(bits_bytes()), decode(encode()) all equal the key".to_string());
     sp.done(true, "303 contents; 8 algorithm-identifier encodings; 10 keys; 4 key-identifier encodings x 8 keys");
+}
+
+//------------ BER respelling of one field of a DER object ----------------------------------------------
+
+#[derive(Clone, Debug, PartialEq, Eq, PartialOrd, Ord)]
+enum Spell {
+    /// definite length with one superfluous length octet
+    NonMinimal,
+    /// definite length written as 0x84 + four octets
+    Long4,
+    /// indefinite length + end-of-contents (constructed values only)
+    Indefinite,
+    /// primitive string written constructed, cut at these positions into OCTET STRING segments
+    Segments(Vec<usize>),
+}
+
+impl Spell {
+    fn name(&self) -> String {
+        match self { Spell::NonMinimal => "non-minimal-length".into(), Spell::Long4 => "4-octet-length".into(), Spell::Indefinite => "indefinite-length".into(),
+            Spell::Segments(c) => format!("constructed-{}-segments-cut-at-{:?}", c.len() + 1, c) }
+    }
+}
+
+/// Re-writes `node` (and nothing else) of the DER object `buf` in another BER spelling.
+fn respell(buf: &[u8], node: &der::Node, path: &mut Vec<usize>, target: &[usize], sp: &Spell) -> Vec<u8> {
+    if !target.starts_with(path) { return node.whole(buf).to_vec() }
+    let is_target = path.as_slice() == target;
+    let content: Vec<u8> = if node.constructed() {
+        let mut c = Vec::new();
+        for (i, ch) in node.children.iter().enumerate() { path.push(i); c.extend(respell(buf, ch, path, target, sp)); path.pop(); }
+        c
+    } else { node.content(buf).to_vec() };
+    if !is_target { return der::tlv(node.tag, &content) }
+    let n = content.len();
+    let mut out = Vec::new();
+    match sp {
+        Spell::NonMinimal => {
+            out.push(node.tag);
+            if n < 128 { out.extend([0x81, n as u8]) } else { let l = der::len_octets(n); out.push(l[0] + 1); out.push(0); out.extend(&l[1..]) }
+            out.extend(content);
+        }
+        Spell::Long4 => { out.push(node.tag); out.push(0x84); out.extend((n as u32).to_be_bytes()); out.extend(content) }
+        Spell::Indefinite => { out.push(node.tag); out.push(0x80); out.extend(content); out.extend([0, 0]) }
+        Spell::Segments(cuts) => {
+            let mut segs = Vec::new();
+            let mut prev = 0;
+            for &c in cuts.iter().chain(std::iter::once(&n)) { segs.extend(der::tlv(der::T_OCTSTR, &content[prev..c])); prev = c }
+            out = der::tlv(node.tag | 0x20, &segs);
+        }
+    }
+    out
+}
+
+/// All ways to cut `n` octets into `k` non-empty segments (cut positions).
+fn cuts_into(n: usize, k: usize) -> Vec<Vec<usize>> {
+    fn rec(start: usize, n: usize, left: usize, cur: &mut Vec<usize>, out: &mut Vec<Vec<usize>>) {
+        if left == 0 { out.push(cur.clone()); return }
+        for c in start..n { cur.push(c); rec(c + 1, n, left - 1, cur, out); cur.pop(); }
+    }
+    let mut out = Vec::new();
+    rec(1, n, k - 1, &mut Vec::new(), &mut out);
+    out
+}
+
+/// (field name, path, spellings) for a CMS SignedData object.
+fn cms_fields(buf: &[u8], full_sid: bool) -> Vec<(&'static str, Vec<usize>, Vec<Spell>)> {
+    let root = der::parse_one(buf, false).expect("object of the independent encoder parses");
+    let sd = &root.children[1].children[0];
+    let si_idx = sd.children.len() - 1;
+    let si = vec![1, 0, si_idx, 0];
+    let hdr = || vec![Spell::NonMinimal, Spell::Long4, Spell::Indefinite];
+    let with = |p: &[usize], i: usize| { let mut v = p.to_vec(); v.push(i); v };
+    let mut f: Vec<(&'static str, Vec<usize>, Vec<Spell>)> = vec![
+        ("ContentInfo", vec![], hdr()), ("content[0]", vec![1], hdr()), ("SignedData", vec![1, 0], hdr()), ("version", vec![1, 0, 0], vec![Spell::NonMinimal, Spell::Long4]),
+        ("digestAlgorithms", vec![1, 0, 1], hdr()), ("digestAlgorithm", vec![1, 0, 1, 0], hdr()), ("encapContentInfo", vec![1, 0, 2], hdr()),
+        ("eContentType", vec![1, 0, 2, 0], vec![Spell::NonMinimal, Spell::Long4]), ("eContent[0]", vec![1, 0, 2, 1], hdr()),
+        ("certificates[0]", vec![1, 0, 3], hdr()), ("Certificate", vec![1, 0, 3, 0], hdr()),
+        ("signerInfos", vec![1, 0, si_idx], hdr()), ("SignerInfo", si.clone(), hdr()), ("SignerInfo.version", with(&si, 0), vec![Spell::NonMinimal, Spell::Long4]),
+        ("SignerInfo.digestAlgorithm", with(&si, 2), hdr()), ("signedAttrs[0]", with(&si, 3), hdr()), ("signatureAlgorithm", with(&si, 4), hdr()),
+    ];
+    if si_idx == 5 { f.push(("crls[1]", vec![1, 0, 4], hdr())); f.push(("CertificateList", vec![1, 0, 4, 0], hdr())) }
+    // eContent OCTET STRING
+    let ec = &sd.children[2].children[1].children[0];
+    let mut sp = vec![Spell::NonMinimal, Spell::Long4];
+    for k in [1usize, 2, 3, 4, 17] { if ec.len >= k { sp.push(Spell::Segments((1..k).map(|i| i * ec.len / k).collect())) } }
+    f.push(("eContent", vec![1, 0, 2, 1, 0], sp));
+    // sid [0]: every split into 1..=4 segments (full) or a few, and 20 segments
+    let mut sp = vec![Spell::NonMinimal, Spell::Long4, Spell::Segments(vec![])];
+    if full_sid { for k in 2..=4 { sp.extend(cuts_into(20, k).into_iter().map(Spell::Segments)) } }
+    else { sp.extend([vec![1], vec![10], vec![19], vec![1, 2], vec![7, 14], vec![5, 10, 15]].map(Spell::Segments)) }
+    sp.push(Spell::Segments((1..20).collect()));
+    f.push(("sid[0]", with(&si, 1), sp));
+    // signature OCTET STRING
+    let mut sp = vec![Spell::NonMinimal, Spell::Long4];
+    for k in [1usize, 2, 3, 4, 16, 256] { sp.push(Spell::Segments((1..k).collect::<Vec<_>>().iter().map(|i| i * 256 / k).collect())) }
+    f.push(("signature", with(&si, 5), sp));
+    f
+}
+
+fn ber_respellings(ctx: &Ctx, fx: &Fx, ees: &BTreeMap<(Kind, EeV), Vec<u8>>) {
+    let sp = ctx.space("ber.respelling",
+        "every field of the CMS wrapper of a DER object re-written in another BER spelling, one field at a time: non-minimal length, 4-octet length, indefinite length at ContentInfo, content [0], SignedData, version, digestAlgorithms, its member, encapContentInfo, eContentType, eContent [0], certificates [0], Certificate, signerInfos, SignerInfo, its version, digestAlgorithm, signedAttrs [0], signatureAlgorithm; eContent and signature as constructed OCTET STRINGs of 1,2,3,4,16/17,256 segments; sid [0] constructed in every split into 1..=4 segments and in 20 segments (all-satisfied objects; a selection for violated ones). Objects: 4 kinds x {all satisfied, every single violation}. Relaxed decoding: if the decoder admits the spelling the verdict must be the condition vector's (a validation error on an all-satisfied object is a violation, a decode error is counted per field); strict decoding: nothing with a violated condition may be accepted; nothing may panic; non-trivial = admitted respellings");
+    let mut plans: Vec<Plan> = Vec::new();
+    for k in KINDS { plans.push(Plan::base(k)); for v in all_single() { let mut p = Plan::base(k); v.apply(&mut p); plans.push(p) } }
+    let admitted: Mutex<BTreeMap<String, (u64, u64)>> = Mutex::new(BTreeMap::new());
+    let t = Tally::new();
+    let nt = Mutex::new(0u64);
+    plans.par_iter().for_each(|p| {
+        let bytes = assemble(fx, p, &ees[&(p.kind, p.ee)]);
+        let Some(root) = der::parse_one(&bytes, false) else { return };
+        let mut local: BTreeMap<String, (u64, u64)> = BTreeMap::new();
+        let mut n_adm = 0u64;
+        for (fname, path, spells) in cms_fields(&bytes, p.all_ok()) { for spl in &spells {
+            if matches!(spl, Spell::Indefinite) && path.is_empty() && false { continue }
+            let m = respell(&bytes, &root, &mut Vec::new(), &path, spl);
+            for strict in [false, true] {
+                let (v, _) = run(fx, p.kind, &m, &fx.ca, strict, Entry::At);
+                sp.eval();
+                t.add(match (&v, strict) { (Verdict::Accept, _) => "accepted", (Verdict::Decode(_), false) => "not-admitted-relaxed", (Verdict::Decode(_), true) => "refused-strict", (Verdict::Panic(_), _) => "panic", _ => "rejected-at-validation" });
+                let wit = || format!("{} field={fname} spelling={} (object of {} octets -> {})", p.witness(strict), spl.name(), bytes.len(), m.len());
+                match &v {
+                    Verdict::Panic(pn) => fail("C02.no_panic", wit(), pn.clone()),
+                    Verdict::Accept if !p.all_ok() => fail("C02.ber.reject", wit(), "a stated condition is violated but the respelled object was accepted"),
+                    Verdict::Invalid(e) if p.all_ok() && !strict => fail("C02.ber.accept", wit(), format!("all stated conditions hold and the decoder admitted the spelling, yet validation failed: {}", trunc(e, 160))),
+                    _ => {}
+                }
+                if !strict && p.all_ok() {
+                    let e = local.entry(fname.to_string()).or_insert((0, 0));
+                    if matches!(v, Verdict::Decode(_)) { e.1 += 1 } else { e.0 += 1; n_adm += 1 }
+                }
+            }
+        }}
+        *nt.lock().unwrap() += n_adm;
+        let mut g = admitted.lock().unwrap();
+        for (k, (a, r)) in local { let e = g.entry(k).or_insert((0, 0)); e.0 += a; e.1 += r }
+    });
+    sp.merge_outcomes(&t.oc.lock().unwrap());
+    sp.nontrivial(*nt.lock().unwrap());
+    let adm = admitted.into_inner().unwrap();
+    sp.set("all_satisfied_relaxed_admitted_vs_refused_per_field", serde_json::json!(adm.iter().map(|(k, (a, r))| format!("{k}: {a} admitted, {r} refused at decode")).collect::<Vec<_>>()));
+    sp.sample_str(|| "kind=roa all satisfied field=signedAttrs[0] spelling=indefinite-length relaxed -> accepted".to_string());
+    sp.done(true, &format!("{} objects x 22 fields x their spellings (sid: 1162 splits for all-satisfied objects) x 2 modes", plans.len()));
+}
+
+//------------ the scale dimension ------------------------------------------------------------------------
+
+fn scale_counts(max_small: usize, powers: &[usize]) -> Vec<usize> {
+    let mut v: Vec<usize> = (0..=max_small).collect();
+    for &p in powers { v.extend([p - 1, p, p + 1]) }
+    v.sort(); v.dedup(); v
+}
+
+fn scale_spaces(ctx: &Ctx, fx: &Fx, thorough: bool) {
+    //--- number of blocks of the EE certificate / the issuing CA
+    let sp = ctx.space("roa.blocks.scale",
+        "EE certificates (and issuing CAs the EE inherits from) holding N disjoint blocks with gaps, N in 0..=40, 63..=65, 127..=129, 255..=257: block j is the /24 (v6: /48) number q of the j-th /22 (/46), q in {1, 2}, so that every kind of straddling prefix exists; one-prefix ROAs: before the first block, after the last, far after; and for block j (every j for N <= 40; else first, second, 15th..17th, middle, last but one, last; thorough: every j): the block itself, both halves, first and last host, the /23 around it (start in gap / end in block for q=1, start in block / end in gap for q=2), the /22 spanning it, the gap before and the gap after; v4 explicit and inherited, v6 explicit: accepted <=> one block contains the prefix; non-trivial = all");
+    let counts = scale_counts(40, &[64, 128, 256]);
+    let maxn = *counts.last().unwrap();
+    let ta = pki::valid_ta(&fx.s, K_TA, Res::all());
+    for (v6, inherit) in [(false, false), (false, true), (true, false)] {
+        let w = fam_width(v6);
+        let unit: u128 = 1u128 << (w - if v6 { 48 } else { 24 });     // size of a block
+        let base: u128 = if v6 { 0x2001_0db8u128 << 96 } else { 0x0a00_0000 };
+        let blen: u8 = if v6 { 48 } else { 24 };
+        for q in [1u128, 2] {
+            let bmin = |j: usize| base + (j as u128 * 4 + q) * unit;
+            // queries of block j: (label, bits, len)
+            let queries = |j: usize| -> Vec<(&'static str, u128, u8)> {
+                let b = bmin(j);
+                vec![("block", b, blen), ("lower-half", b, blen + 1), ("upper-half", b + unit / 2, blen + 1), ("first-host", b, w as u8), ("last-host", b + unit - 1, w as u8),
+                     ("straddling-pair", b & !(2 * unit - 1), blen - 1), ("spanning-quad", b & !(4 * unit - 1), blen - 2), ("gap-before", b - unit, blen), ("gap-after", b + unit, blen)]
+            };
+            // pre-sign every content once: block positions do not depend on N
+            let mut contents: Vec<(String, u128, u8)> = vec![("before-first".into(), base - unit, blen), ("far-after".into(), base + (maxn as u128 * 4 + 8) * unit, blen)];
+            for j in 0..maxn { for (l, bits, len) in queries(j) { contents.push((format!("{l}-of-block-{j}"), bits, len)) } }
+            let signed: Vec<Signed> = contents.par_iter().map(|(_, bits, len)| {
+                let a = [to_roa_addr(&Pfx { bits: *bits, len: *len, max: None }, v6)];
+                presign(fx, Kind::Roa, if v6 { der::roa_content(None, 64496, None, Some(&a)) } else { der::roa_content(None, 64496, Some(&a), None) })
+            }).collect();
+            let idx_of = |j: usize, qi: usize| 2 + j * 9 + qi;
+            let t = Tally::new();
+            counts.par_iter().for_each(|&n| {
+                let blocks: Vec<(u128, u128)> = (0..n).map(|j| (bmin(j), bmin(j) + unit - 1)).collect();
+                let claim = if n == 0 { Claim::Missing } else { Claim::Blocks(blocks.clone()) };
+                // a second family keeps the certificates well-formed when N = 0
+                let other = Claim::Blocks(vec![if v6 { (0x0a00_0000, 0x0a00_00ff) } else { (0x2001_0db8u128 << 96, (0x2001_0db8u128 << 96) + 0xffff) }]);
+                let res = |c: Claim| if v6 { Res { v4: other.clone(), v6: c, asn: Claim::Missing } } else { Res { v4: c, v6: other.clone(), asn: Claim::Missing } };
+                let built = guard(|| if inherit {
+                    (ee_der(fx, res(Claim::Inherit), EeV::Ok, 8000 + n as u128), pki::valid_ca(&fx.s, &ta, K_TA, K_CA, res(claim.clone())))
+                } else { (ee_der(fx, res(claim.clone()), EeV::Ok, 8000 + n as u128), fx.ca.clone()) });
+                let (cert, issuer) = match built { Ok(x) => x, Err(pn) => { fail("C02.no_panic", format!("building certificates with {n} blocks"), pn); return } };
+                let mut js: Vec<usize> = if n <= 40 || thorough { (0..n).collect() } else { vec![0, 1, 15, 16, 17, n / 2, n - 2, n - 1] };
+                js.sort(); js.dedup();
+                let mut cases: Vec<usize> = vec![0, 1];
+                for &j in &js { for qi in 0..9 { cases.push(idx_of(j, qi)) } }
+                if n < maxn { cases.push(idx_of(n, 0)) }     // the block right after the last one
+                for ci in cases {
+                    let (label, bits, len) = &contents[ci];
+                    let pmax = bits + if *len as u32 == w { 0 } else { (1u128 << (w - *len as u32)) - 1 };
+                    let want = blocks.iter().any(|&(lo, hi)| lo <= *bits && pmax <= hi);
+                    let bytes = wrap(fx, Kind::Roa, &signed[ci], &cert);
+                    let (v, _) = run(fx, Kind::Roa, &bytes, &issuer, true, Entry::Process(true));
+                    sp.eval(); sp.nontrivial(1); t.add(v.class());
+                    expect(ctx, "C02.roa.covered.accept", "C02.roa.uncovered.reject", want, &v,
+                        || format!("roa prefix={} ({label}) {} {n} blocks: block j = {} number {q} of the j-th {} from {}", render_pfx(&Pfx { bits: *bits, len: *len, max: None }, v6),
+                            if inherit { "ee inherits from a CA holding" } else { "ee certificate holds" }, if v6 { "/48" } else { "/24" }, if v6 { "/46" } else { "/22" }, if v6 { "2001:db8::" } else { "10.0.0.0" }));
+                }
+            });
+            sp.merge_outcomes(&t.oc.lock().unwrap());
+        }
+    }
+    sp.set("block_counts", serde_json::json!(counts));
+    sp.sample_str(|| "roa prefix=v4:0a004400/23 (straddling-pair-of-block-17) ee certificate holds 20 blocks -> rejected (starts in a gap, ends inside block 17)".to_string());
+    sp.done(true, &format!("{} block counts x 2 layouts x {{v4 explicit, v4 inherited, v6 explicit}} x (3 + 9 per queried block) prefixes", counts.len()));
+
+    //--- number of prefixes in a ROA, of providers in an ASPA, of entries in a manifest
+    let sp = ctx.space("content.count.scale",
+        "ROAs with N prefixes (distinct /24s under 10.0.0.0/8, EE holds 10.0.0.0/8 minus nothing) for N in 1..=40, 63..=65, 127..=129, 255..=257, 1023..=1025, 4095..=4097: all covered: accepted; exactly one (first / middle / last) replaced by a prefix outside the EE's resources: rejected. ASPAs with N providers, N in 1..=40 and the neighbourhoods of 64, 128, 256, 1024, 4096, 16384 and 16379..=16381 (MAX 16380): accepted up to the documented maximum, counted beyond it; customer not in the EE's AS resources: rejected. Manifests with N entries (same counts up to 4097): accepted, with a wrong digest rejected; non-trivial = all");
+    let t = Tally::new();
+    let roa_counts: Vec<usize> = scale_counts(40, &[64, 128, 256, 1024, 4096]).into_iter().filter(|&n| n >= 1).collect();
+    let roa_cert = ee_der(fx, Res { v4: Claim::Blocks(vec![(0x0a00_0000, 0x0aff_ffff)]), v6: Claim::Missing, asn: Claim::Missing }, EeV::Ok, 8800);
+    let mut jobs: Vec<(usize, Option<usize>)> = Vec::new();
+    for &n in &roa_counts { jobs.push((n, None)); for bad in [0, n / 2, n - 1] { jobs.push((n, Some(bad))) } }
+    jobs.sort(); jobs.dedup();
+    jobs.par_iter().for_each(|&(n, bad)| {
+        let addrs: Vec<RoaAddr> = (0..n).map(|i| if Some(i) == bad { der::roa_addr_from(0x0b00_0000 | ((i as u128) << 8), 24, 32, None) } else { der::roa_addr_from(0x0a00_0000 | ((i as u128) << 8), 24, 32, None) }).collect();
+        let bytes = wrap(fx, Kind::Roa, &presign(fx, Kind::Roa, der::roa_content(None, 64496, Some(&addrs), None)), &roa_cert);
+        let (v, _) = run(fx, Kind::Roa, &bytes, &fx.ca, true, Entry::Process(true));
+        sp.eval(); sp.nontrivial(1); t.add(v.class());
+        expect(ctx, "C02.roa.covered.accept", "C02.roa.uncovered.reject", bad.is_none(), &v, || format!("roa with {n} prefixes 10.0.i.0/24, i < {n}{}; ee holds 10.0.0.0/8", bad.map(|b| format!(", prefix number {b} replaced by 11.0.{b}.0/24")).unwrap_or_default()));
+    });
+    let aspa_counts: Vec<usize> = { let mut v = scale_counts(40, &[64, 128, 256, 1024, 4096, 16384]); v.extend([16379, 16380, 16381]); v.sort(); v.dedup(); v.into_iter().filter(|&n| n >= 1).collect() };
+    let aspa_cert = ee_der(fx, default_res(Kind::Aspa), EeV::Ok, 8801);
+    let mut jobs: Vec<(usize, bool)> = Vec::new();
+    for &n in &aspa_counts { jobs.push((n, true)); jobs.push((n, false)) }
+    jobs.par_iter().for_each(|&(n, customer_ok)| {
+        let providers: Vec<u128> = (0..n).map(|i| 70_000 + 2 * i as u128).collect();
+        let bytes = wrap(fx, Kind::Aspa, &presign(fx, Kind::Aspa, der::aspa_content(Some(1), if customer_ok { 64496 } else { 64497 }, &providers)), &aspa_cert);
+        let (v, _) = run(fx, Kind::Aspa, &bytes, &fx.ca, true, Entry::Process(true));
+        sp.eval(); sp.nontrivial(1);
+        let wit = || format!("aspa customer=AS{} with {n} providers AS70000, AS70002, ...; ee holds AS64496", if customer_ok { 64496 } else { 64497 });
+        if n > 16380 && customer_ok { t.add(if v.accepted() { "over-maximum-accepted" } else { "over-maximum-rejected" }); if let Verdict::Panic(pn) = &v { fail("C02.no_panic", wit(), pn.clone()) } }
+        else { t.add(v.class()); expect(ctx, "C02.aspa.accept", "C02.aspa.reject", customer_ok, &v, wit) }
+    });
+    let mft_counts: Vec<usize> = scale_counts(40, &[64, 128, 256, 1024, 4096]);
+    let mft_cert = ee_der(fx, default_res(Kind::Mft), EeV::Ok, 8802);
+    let mut jobs: Vec<(usize, bool)> = Vec::new();
+    for &n in &mft_counts { jobs.push((n, true)); jobs.push((n, false)) }
+    jobs.par_iter().for_each(|&(n, good)| {
+        let files: Vec<(Vec<u8>, u8)> = (0..n).map(|i| (format!("f{:06}.roa", i).into_bytes(), (i % 251) as u8)).collect();
+        let mut p = Plan::base(Kind::Mft); p.content = mft_content(&files);
+        if !good { p.digest = DigestV::FlipLast }
+        let bytes = assemble(fx, &p, &mft_cert);
+        let (v, _) = run(fx, Kind::Mft, &bytes, &fx.ca, true, Entry::At);
+        sp.eval(); sp.nontrivial(1); t.add(v.class());
+        expect(ctx, "C02.content.size.accept", "C02.content.size.reject", good, &v, || format!("manifest with {n} entries; {}", p.witness(true)));
+    });
+    sp.merge_outcomes(&t.oc.lock().unwrap());
+    sp.set("roa_prefix_counts", serde_json::json!(roa_counts));
+    sp.set("aspa_provider_counts", serde_json::json!(aspa_counts));
+    sp.sample_str(|| "roa with 17 prefixes, prefix number 16 replaced by 11.0.16.0/24 -> rejected".to_string());
+    sp.done(true, &format!("{} ROA prefix counts x 4; {} ASPA provider counts x 2; {} manifest entry counts x 2", roa_counts.len(), aspa_counts.len(), mft_counts.len()));
 }
